@@ -21,6 +21,10 @@ caller forwards its own **kwargs).  DECIDED STRUCTURALLY from the ast of the rea
     normalisation (`root = root or fn` before the directory-scan call of metadata_from_many);
   * a filtered / recomputed value (`tz = {c: z for c, z in tz.items() if ..}`), a constant, another name, nothing at all (the callee's
     default) -> REFUTED with what is passed instead.  A constant EXPECT is also met by the callee's default when nothing is passed.
+Flag provenance: readoptions.<fn>.<flag>_not_rebound for selfmade / use_cat / scheme / verify / skip_nulls / utf / as_idx / pandas_nulls in
+every function of the chain that takes the flag (NO assignment to it anywhere in the function - a flag has no legitimate normalisation),
+and readoptions.ParquetFile._set_attrs.selfmade_is_created_by_fastparquet (the one source of the flag).  `selfmade` is what keeps
+fastparquet's own 8/16/32-bit dictionary indices on the numpy fast path and off cencoding.read_bitpacked (undefined for widths > 24): C12.
 Not repeated here (symbolic obligations of the callee contracts): c03_pages read_col.* / read_data_page_v2.*, c15_assembly assemble.*,
 c06_handles, c13_rowfilter.  Known: the v2 kernel site passes null=True, null_val=False (finding C15-P-v2-null-hard-coded).
 """
@@ -453,6 +457,57 @@ def analyse():
     return res, n_sites
 
 
+FLAGS = ("selfmade", "use_cat", "scheme", "verify", "skip_nulls", "utf", "as_idx", "pandas_nulls")
+W_SELFMADE = "c11 / c12: `selfmade` (the file was written by fastparquet) is what sends 8/16/32-bit dictionary indices to the numpy fast path of " \
+             "read_data_page / read_data_page_v2 (`bit_width in [8, 16, 32] and selfmade`) instead of cencoding.read_bitpacked, whose shifts are " \
+             "undefined for widths > 24: it must arrive as ParquetFile computed it from created_by, on every path"
+
+
+def flag_obligations(res):
+    """readoptions.<fn>.<flag>_not_rebound: a flag-like option is never assigned inside a function of the chain that takes it (no
+    normalisation is legitimate for a flag: it is only tested and handed on); and the flag's source in ParquetFile._set_attrs"""
+    names, methods, dotted, callers = load_tables()
+    fns = {}
+    for mod, q, pf in callers:
+        fns[q] = pf.tree
+    for tab in (names, methods, dotted):
+        for k, (tree, _s) in tab.items():
+            q = k.split(".")[-1] if k in dotted else k
+            if not any(t is tree for t in fns.values()):
+                fns.setdefault(q if k not in methods else "ParquetFile." + k, tree)
+    n = 0
+    for q, fn in sorted(fns.items()):
+        params = {a.arg for a in fn.args.args} | {a.arg for a in fn.args.kwonlyargs}
+        for flag in FLAGS:
+            if flag not in params:
+                continue
+            stores = sorted({f"L{st.lineno}: " + ast.unparse(st).split("\n")[0][:90] for st in ast.walk(fn) if isinstance(st, ast.stmt)
+                             and not isinstance(st, (ast.FunctionDef, ast.If, ast.For, ast.While, ast.With, ast.Try))
+                             for x in ast.walk(st) if isinstance(x, ast.Name) and x.id == flag and isinstance(x.ctx, (ast.Store, ast.Del))} |
+                            {f"L{st.lineno}: for/with target" for st in ast.walk(fn) if isinstance(st, (ast.For, ast.With))
+                             for t in ([st.target] if isinstance(st, ast.For) else [i.optional_vars for i in st.items if i.optional_vars])
+                             for x in ast.walk(t) if isinstance(x, ast.Name) and x.id == flag})
+            n += 1
+            res.add(f"readoptions.{q}.{flag}_not_rebound", PROVED if not stores else REFUTED, None if not stores else {"assignments": stores}, 0.0, "ast",
+                    f"the parameter `{flag}` of {q} is never assigned inside the function: what the function tests and hands on is the caller's flag"
+                    + (" [" + W_SELFMADE + "]" if flag == "selfmade" else ""))
+    api, _, _ = parse_module("fastparquet/api.py")
+    cls_stores = []
+    for q, f in api.items():
+        if q.startswith("ParquetFile."):
+            for st in ast.walk(f.tree):
+                if isinstance(st, (ast.Assign, ast.AugAssign, ast.AnnAssign)):
+                    for t in (st.targets if isinstance(st, ast.Assign) else [st.target]):
+                        if isinstance(t, ast.Attribute) and t.attr == "selfmade":
+                            cls_stores.append((q, ast.unparse(st.value)))
+    want = "b'fastparquet' in self.created_by if self.created_by is not None else False"
+    ok = cls_stores == [("ParquetFile._set_attrs", want)]
+    res.add("readoptions.ParquetFile._set_attrs.selfmade_is_created_by_fastparquet", PROVED if ok else REFUTED,
+            None if ok else {"assignments_to_self.selfmade": [f"{q}: {v[:80]}" for q, v in cls_stores]}, 0.0, "ast",
+            "self.selfmade is assigned once, in _set_attrs, as `b'fastparquet' in created_by` (False without created_by) [" + W_SELFMADE + "]")
+    return n
+
+
 def check(ctx, timeout=None):
     api, _, _ = parse_module("fastparquet/api.py")
     core, _, _ = parse_module("fastparquet/core.py")
@@ -463,6 +518,7 @@ def check(ctx, timeout=None):
         if q in core:
             ctx.function("core." + q, core[q].sha, core[q].report)
     res, n_sites = analyse()
+    flag_obligations(res)
     if n_sites < 35 or len(res.order) < 100:
         ctx.engine_error(f"readoptions: only {n_sites} call sites / {len(res.order)} obligations found - the read chain was not recognised")
     ctx.vacuity["covers"] += n_sites
